@@ -177,6 +177,26 @@ def body_rules(ctx):
         "chunked_comment_after_dummy": (None, [X("chunked", [], None, None, [X("dummy", [("type", "char")], "1"), f("zq3")])]),
         "nested_chunked_break_ok_then_outside": (False, [X("chunked", [], None, None, [X("chunked", [], None, None, [f("zq1")]), X("break")]), X("break")]),
         "named_hardcoded_int_nonnumeric": (None, [f("zq1", "char", "abc")]),
+        # numerals that Python's int() accepts but the grammar does not (sign, PEP 515 underscore, exponent, radix prefix, fraction)
+        "named_hardcoded_int_minus": (None, [f("zq1", "char", "-1")]),
+        "named_hardcoded_int_plus": (None, [f("zq1", "short", "+7")]),
+        "named_hardcoded_int_underscore": (None, [f("zq1", "short", "1_0")]),
+        "named_hardcoded_int_hex": (None, [f("zq1", "short", "0x1")]),
+        "named_hardcoded_int_fraction": (None, [f("zq1", "short", "1.5")]),
+        "hardcoded_int_minus": (None, [f(None, "char", "-1")]),
+        "hardcoded_int_plus": (None, [f(None, "short", "+7")]),
+        "hardcoded_int_underscore": (None, [f(None, "short", "1_0")]),
+        "dummy_minus": (None, [X("dummy", [("type", "short")], "-1")]),
+        "dummy_plus": (None, [X("dummy", [("type", "short")], "+7")]),
+        "dummy_underscore": (None, [X("dummy", [("type", "short")], "1_0")]),
+        "length_plus": (None, [f("zq1", "string", length="+2")]),
+        "length_underscore": (None, [f("zq1", "string", length="1_0")]),
+        "array_length_plus": (None, [arr("zq1", "char", length="+2")]),
+        "array_length_underscore": (None, [arr("zq1", "char", length="1_0")]),
+        "case_value_plus": (None, [f("zq1"), switch("zq1", case("+1", body=[f("zq2")]))]),
+        "case_value_underscore": (None, [f("zq1"), switch("zq1", case("1_0", body=[f("zq2")]))]),
+        "named_hardcoded_bool_numeral": (None, [f("zq1", "bool", "1")]),
+        "named_hardcoded_bool_capital": (None, [f("zq1", "bool", "yes")]),
     }
     return {k: v for k, v in r.items() if v[1] is not None}
 
@@ -373,7 +393,7 @@ def generic_edit(files, rng):
         if e.tag not in ("field", "array"):
             return None
         lens = [x.get("name") for _, _, x in instrs if x.tag == "length" and x.get("name")]
-        v = rng.choice([None, "0", "3", "x3", "-1"] + lens + field_names[:3])
+        v = rng.choice([None, "0", "3", "x3", "-1", "+2", "1_0", " 2"] + lens + field_names[:3])
         return f"{kind} {e.tag} {e.get('name')} {e.get('length')}->{v}", upd(fi, path, lambda x: _set_attr(x, "length", v))
     if kind == "toggle_flag":
         k = rng.choice(["delimited", "padded", "trailing-delimiter"])
@@ -387,12 +407,12 @@ def generic_edit(files, rng):
         if rng.random() < 0.3:
             v = None if e.get("default") == "true" else "true"
             return f"{kind} default={v}", upd(fi, path, lambda x: _set_attr(x, "default", v))
-        v = rng.choice([None, "0", "1", "7", "abc", "Unknown"] + ([rng.choice(type_names)] if type_names else []))
+        v = rng.choice([None, "0", "1", "7", "abc", "Unknown", "+1", "1_0", "-1", " 1"] + ([rng.choice(type_names)] if type_names else []))
         return f"{kind} value {e.get('value')}->{v}", upd(fi, path, lambda x: _set_attr(x, "value", v))
     if kind == "hardcode":
         if e.tag not in ("field", "dummy"):
             return None
-        v = rng.choice([None, "1", "abc", "true", "12x", ""])
+        v = rng.choice([None, "1", "abc", "true", "12x", "", "-1", "+7", "1_0", " 7 ", "0x1", "1.5", "True", "false"])
         return f"{kind} {e.tag} {e.get('name')} text->{v!r}", upd(fi, path, lambda x: x.replace(text=v))
     if kind == "rename":
         if e.tag not in ("field", "array", "length"):
